@@ -341,6 +341,10 @@ func (p *pdr) parseUEAddressIE(ueAddrIE *ie.IE, ippool *IPPool) error {
 		/* alloc IPV6 if CHV6 is enabled : TBD */
 		logger.PfcpLog.Infof("UPF should alloc UE IP for SEID %v. CHV4 flag set", p.fseID)
 
+		if ippool == nil {
+			return ErrOperationFailedWithReason("parse UE Address IE", "UE IP allocation is not enabled")
+		}
+
 		ueIP4, err = ippool.LookupOrAllocIP(p.fseID)
 		if err != nil {
 			logger.PfcpLog.Errorln("failed to allocate UE IP")
